@@ -7,6 +7,7 @@ verus! {
 //@ include prelude/std_specs.rs
 //@ include prelude/val32.rs
 //@ include prelude/pack32.rs
+//@ include prelude/highbits.rs
 //@ extract src/bigint.rs :: enum Sign attrs=1
 #[derive(/*+*/Structural, /*-*/PartialEq, PartialOrd, Eq, Ord, Copy, Clone, Debug, Hash)]
 pub enum Sign {
@@ -27,6 +28,9 @@ pub struct BigUint {
 //@ end
 //@ include prelude/biguint_view.rs
 //@ stub u_core/biguint_from_vec
+impl BigUint {
+//@ stub u_conv/bits
+}
 
 pub open spec fn lo32(d: u64) -> u32 { d as u32 }
 pub open spec fn hi32(d: u64) -> u32 { (d >> 32) as u32 }
